@@ -140,6 +140,9 @@ class CNFLinear(BaseCNF):
 
         # We fist manage the case of !=
         if op == "!=":
+            # work on a copy: the signs are flipped in place below, and
+            # the caller's sequence may be immutable (tuple, range)
+            lits = list(lits)
             n = len(lits)
             if constant < 0 or constant > n:
                 return
